@@ -15,7 +15,7 @@ def run_case(c, ci):
     res["plain"] = rw.run_plain(c["src"], fname)
     guard_schedule = c.get("guard_schedule")     # C10: consumed at every event that carries a guard name
     override = c.get("override")                 # C08: {"event":..., "kind":..., "value":...}: what the handler returns for that event
-    state = {"i": 0, "count": 0, "seen": [], "per_event": {}, "inside": []}
+    state = {"i": 0, "count": 0, "seen": [], "per_event": {}, "inside": [], "silenced": {}, "leaks": []}
 
     def recorder(self, evt, ret, node, guard, kw):
         state["count"] += 1
@@ -24,6 +24,18 @@ def run_case(c, ci):
         if c.get("log_lines"):
             state["inside"].append([name, getattr(node, "lineno", None)])
         g = kw.get("guard", guard)
+        if c.get("silence"):
+            # C10: every loop guard is activated the first time it is handed out (end of the loop's first completed iteration) and
+            # never deactivated; from then on no event may come from a node that lies lexically inside that loop's body
+            line = getattr(node, "lineno", None)
+            if line is not None:
+                for gname, (a, b) in state["silenced"].items():
+                    if a <= line <= b and not (name in ("after_for_loop_iter", "after_while_loop_iter") and g == gname):
+                        state["leaks"].append([name, type(node).__name__, line, [a, b]])
+            if name in ("after_for_loop_iter", "after_while_loop_iter") and isinstance(g, str) and g in self.guards and g not in state["silenced"]:
+                self.activate_guard(g)
+                # the guarded part is the loop BODY (not the header, not an else clause)
+                state["silenced"][g] = (node.body[0].lineno, node.body[-1].end_lineno) if node is not None else (0, -1)
         if guard_schedule is not None and isinstance(g, str) and g in self.guards:
             if g not in state["seen"]:
                 state["seen"].append(g)
@@ -72,6 +84,9 @@ def run_case(c, ci):
             res["per_event"] = state["per_event"]
             if c.get("log_lines"):
                 res["event_lines"] = state["inside"]
+            if c.get("silence"):
+                res["leaks"] = state["leaks"][:10]
+                res["silenced"] = len(state["silenced"])
     finally:
         type(t).clear_instance()
         pyc.BaseTracer.guards.clear()
